@@ -358,7 +358,28 @@ def fam_explicit_return_abi_locals():
             [("measure", 1, 1), ("label", 1, 1), ("rec", 1, 1)])
 
 
-REC_FAMILIES = [fam_explicit_return_abi_locals, fam_anytype, fam_fact, fam_fib_locals, fam_even_odd, fam_pending_operands, fam_none_rec, fam_bytes_rec, fam_byref,
+def fam_restore_after_join():
+    """slot-optimiser shapes: a variable read in an earlier / sibling block, then stored and read back at once after a join
+    (the adjacent pair may only be cancelled when the slot has no other load anywhere in the routine)"""
+    x, y, z = pt.ScratchVar(U64), pt.ScratchVar(U64), pt.ScratchVar(BYT)
+    c = lambda k: pt.Txn.fee() > pt.Int(k)  # noqa: E731
+
+    @pt.Subroutine(U64)
+    def h(a):
+        w = pt.ScratchVar(U64)
+        return pt.Seq(w.store(a + pt.Int(1)), pt.If(c(3)).Then(pt.Pop(w.load())).Else(pt.Pop(w.load() * pt.Int(2))),
+                      pt.If(c(4)).Then(pt.Pop(pt.Int(0))), w.store(a * pt.Int(3)), w.load())
+    return (pt.Seq(
+        x.store(pt.Btoi(pt.Txn.application_args[0])), pt.Assert(x.load() > pt.Int(0)), pt.Pop(pt.Itob(x.load())),
+        pt.If(c(1)).Then(pt.Pop(pt.Int(7))),
+        x.store(pt.Int(5)), pt.Pop(x.load()),
+        y.store(pt.Int(1)),
+        pt.If(c(2)).Then(pt.Pop(y.load())).Else(pt.Seq(y.store(pt.Int(9)), pt.Pop(y.load()))),
+        z.store(pt.Bytes("a")), pt.While(c(5)).Do(pt.Seq(pt.Pop(pt.Len(z.load())), pt.Break())), z.store(pt.Bytes("b")), pt.Pop(z.load()),
+        pt.Pop(h(pt.Int(2))), pt.Approve()), [("h", 1, 1)])
+
+
+REC_FAMILIES = [fam_restore_after_join, fam_explicit_return_abi_locals, fam_anytype, fam_fact, fam_fib_locals, fam_even_odd, fam_pending_operands, fam_none_rec, fam_bytes_rec, fam_byref,
                 fam_mixed_kinds, fam_mixed_kinds2]
 
 
@@ -687,8 +708,11 @@ class Runner:
             t2 = recompile_unopt()
             if t2 is not None:
                 a2 = ask_check(self.d, t2[0], t2[1])
-                if a2.startswith("ok") and int(parse_ok(a2).get("exitExtra", 0)) == 0 and "values left behind" in problem or \
-                        (a2.startswith("ok") and int(parse_ok(a2).get("exitExtra", 0)) == 0 and problem.startswith("bad")):
+                # the known finding only with its witness on the two texts: the optimised text lost a slot that the unoptimised
+                # text stores more often than it loads (another optimiser-induced breakage is a violation of its own)
+                from c03 import dead_store_deleted
+                twin_ok = a2.startswith("ok") and int(parse_ok(a2).get("exitExtra", 0)) == 0
+                if twin_ok and ("values left behind" in problem or problem.startswith("bad")) and dead_store_deleted(t2[0], teal):
                     key = KEY_DEAD
         if key is None and mixed:
             key = KEY_SPILL
